@@ -13,13 +13,14 @@ ID = "C19"
 RULE = (
     "model kind (4) x drawn metric (all 47, training data in its domain) x with / without pre-computed distances (supervised, semi-supervised, unsupervised) x small training data and a pool of probe queries. "
     "Oracle: snapshot S0 of the original (all node fields, conquest order, sub-graph scalars, distance name, max_k/min_k, pre_distances); save(f); snapshot S1 == S0 and predictions before == after the save; "
-    "a FRESH model of the same kind built with default constructor arguments loads f: its snapshot == S0, its distance function evaluates like the original's, and predict(Q) equals the original's on every probe batch. "
+    "(pre-computed: training rows in a rotated, non-identity order); a FRESH model of the same kind built with default constructor arguments loads f: its snapshot == S0, its distance function evaluates like the original's, and predict(Q) equals the original's on every probe batch. "
+    "a second, different model saved to the same path and loaded into another fresh model must give the second model's state. "
     "non-trivial: the saved metric differs from the default metric of the fresh model and the model outputs >= 2 distinct labels/clusters; distinct by case hash"
 )
 ASSUMPTIONS = ["files are written to and read from a private temporary directory"]
 BUDGET = {
-    "quick": {"examples": 3200, "shards": 8, "min_nontrivial": 600},
-    "thorough": {"examples": 8000, "shards": 16, "min_nontrivial": 1500, "max_wall": 3000},
+    "quick": {"examples": 4800, "shards": 16, "min_nontrivial": 600},
+    "thorough": {"examples": 32000, "shards": 16, "min_nontrivial": 1500, "max_wall": 3000},
 }
 
 
@@ -81,9 +82,13 @@ def check_case(case):
     m = libcall(cls, **kw)
     It = Iq = None
     if case["pre"]:
-        # semi: unlabeled rows must follow the labeled rows in the matrix -> order rows as train, validation(=unlabeled), queries
+        # semi: unlabeled rows must follow the labeled rows in the matrix -> order rows as train, validation(=unlabeled), queries;
+        # for the other kinds the training rows are presented in a rotated (non-identity) order
         models.set_pre(m, ref)
         It = np.arange(nt)
+        if kind != "semi":
+            It = np.roll(It, 1)
+            Xt, Y = Xt[It], Y[It]
         Iq = np.arange(nt + nv, nt + nv + nq)
     if kind == "sup":
         libcall(m.fit, Xt.copy(), Y.copy(), It)
@@ -110,6 +115,26 @@ def check_case(case):
         p1 = [pred(m, b) for b in batches]
         fresh = libcall(cls)  # default constructor arguments
         libcall(fresh.load, f)
+        # a second model saved to the SAME path and loaded again must give the second model (no stale cache by file name)
+        m2 = libcall(cls, **kw)
+        if case["pre"]:
+            models.set_pre(m2, ref)
+        Y2 = np.array([(v + 1) % (max(case["Y"]) + 1) for v in (Y.tolist())], dtype=int)
+        if kind == "sup":
+            libcall(m2.fit, Xt[::-1].copy(), Y2[::-1].copy(), None if It is None else It[::-1].copy())
+        elif kind == "semi":
+            libcall(m2.fit, Xt.copy(), Y2.copy(), Xv.copy(), It)
+        elif kind == "knn":
+            libcall(m2.fit, Xt[::-1].copy(), Y[::-1].copy(), Xv.copy(), Yv.copy())
+        else:
+            libcall(m2.fit, Xt[::-1].copy(), Y2[::-1].copy(), None if It is None else It[::-1].copy())
+        T0 = snapshot(m2)
+        libcall(m2.save, f)
+        fresh2 = libcall(cls)
+        libcall(fresh2.load, f)
+        T2 = snapshot(fresh2)
+        for k in T0:
+            require(repr(T0[k]) == repr(T2[k]), "loaded_state_equals_original:second_save_to_same_path", lambda: "%s/%s: field %s: second model %r, loaded %r" % (kind, name, k, T0[k], T2[k]))
     S0b = snapshot(m)
     S2 = snapshot(fresh)
     for k in S0b:
